@@ -69,11 +69,47 @@ func genDB(t *rapid.T) dbCase {
 	}
 	maint := []string{"rotate", "rotate", "rewrite", "gc"}
 	if !pbt.Open("C01-F1c") {
-		maint = append(maint, "compact", "compact", "once")
+		maint = append(maint, "drain", "drain", "once")
+	}
+	// write-once flavour: every key is written at most once and never deleted, so no two
+	// copies of one internal key exist and tables may be compacted into deeper levels even
+	// while C01-F1c is open; large inline values on small table sizes give several tables
+	// per level (concatenating iterators, table-boundary seeks)
+	uniq := rapid.IntRange(0, 2).Draw(t, "uniq") == 0
+	written := map[int]bool{}
+	if uniq {
+		c.Keys = eng.KeyPool(t, 6, 14)
+		if art {
+			c.Keys = prefixFreeKeys(c.Keys)
+		}
+		c.Cfg.SmallLevels = true
+		c.Cfg.ValueThreshold = 1 << 20
+		maint = []string{"rotate", "rotate", "drain", "drain", "drain", "once"}
 	}
 	n := rapid.IntRange(4, 50).Draw(t, "nops")
 	for i := 0; i < n; i++ {
 		op := dbOp{K: rapid.SampledFrom([]string{"set", "set", "set", "set", "del", "maint", "iter", "iter", "reopen"}).Draw(t, "op")}
+		if uniq && op.K == "del" {
+			op.K = "set"
+		}
+		if uniq && op.K == "set" {
+			k := -1
+			for j := range c.Keys {
+				if !written[j] {
+					k = j
+					break
+				}
+			}
+			if k < 0 {
+				op.K = "iter"
+			} else {
+				written[k] = true
+				op.Key = k
+				op.VSize = rapid.SampledFrom([]int{1000, 4000, 9000}).Draw(t, "vsizeU")
+				c.Ops = append(c.Ops, op)
+				continue
+			}
+		}
 		switch op.K {
 		case "set":
 			op.Key = rapid.IntRange(0, len(c.Keys)-1).Draw(t, "key")
